@@ -153,6 +153,26 @@ def t1_case(case) -> List[Tuple[str, str]]:
         fails.append(("T1ParEqSeq", f"seed={seed} order={perm} workers={workers}: deltas differ: {got.graph_deltas[:6]} vs {ref.graph_deltas[:6]}"))
     if mg != mr:
         fails.append(("T1ParEqSeq", f"seed={seed} order={perm} workers={workers}: counters differ: {mg} vs {mr}"))
+    if not fails and not perm:
+        # the same turn twice with the stage cache ON through the parallel path: what the first call leaves in the
+        # process-global cache must be the per-graph results, so the second (warm) call returns the same deltas
+        from .. import engine as E2
+        cfg_warm = E.validated_cfg(E.deep_merge({"t1": {"cache": {"enabled": True, "max_entries": 64, "ttl_s": 3600}}},
+                                                {"perf": {"enabled": True, "parallel": {"enabled": True, "t1": True, "max_workers": workers}}}))
+        E2.reset_global_caches()
+        try:
+            st3 = E.mk_state(graphs, [])
+            first = t1_propagate(E.mk_ctx(cfg_warm), st3, text)
+            second = t1_propagate(E.mk_ctx(cfg_warm), st3, text)
+            for nm, r_ in (("first", first), ("second (warm)", second)):
+                if r_.graph_deltas != ref.graph_deltas:
+                    fails.append(("T1ParEqSeq", f"seed={seed} workers={workers} stage cache on, {nm} call: deltas {r_.graph_deltas[:8]} vs sequential {ref.graph_deltas[:8]} "
+                                                f"({len(r_.graph_deltas)} vs {len(ref.graph_deltas)})"))
+                    break
+        except Exception as e:      # noqa: BLE001
+            fails.append(("T1ParEqSeq", f"seed={seed} workers={workers} stage cache on: parallel t1_propagate raised {type(e).__name__}: {e}"))
+        finally:
+            E2.reset_global_caches()
     return fails
 
 
